@@ -178,7 +178,7 @@ def is_order_preserving_of(expr: ast.AST, param: str) -> bool:
 
 
 # ---------------------------------------------------------------- R3
-def check_loop(ctx: Ctx, rep: Report, wm: WalkModel) -> None:
+def check_loop(ctx: Ctx, rep: Report, wm: WalkModel, r3: str = "C01-R3", r6: str = "C01-R6") -> None:
     w = wm.walk
     cfg = ctx.cfg(w)
     defs = ctx.defs(w)
@@ -189,7 +189,7 @@ def check_loop(ctx: Ctx, rep: Report, wm: WalkModel) -> None:
             ok_body = len(body) == 1 and isinstance(body[0], ast.Expr) and isinstance(body[0].value, ast.Yield) and norm(body[0].value.value) == norm(n.target)
             yield_loops.append((n, ok_body))
     for loop, ok_body in yield_loops:
-        rep.check(ok_body, "C01-R3", w.site(loop), "every value the filter lets through is yielded to the caller (loop body is exactly `yield <item>`)", key=f"{w.key}|filter-loop-body")
+        rep.check(ok_body, r3, w.site(loop), "every value the filter lets through is yielded to the caller (loop body is exactly `yield <item>`)", key=f"{w.key}|filter-loop-body")
     loop_nodes = [cfg.node_of(l) for l, _ in yield_loops]
     loop_nodes = [n for n in loop_nodes if n is not None]
     whiles = [n for n in own_nodes(w.node) if isinstance(n, ast.While)]
@@ -210,7 +210,7 @@ def check_loop(ctx: Ctx, rep: Report, wm: WalkModel) -> None:
         if not ok and fnode is not None:
             path = cfg.witness_path(fnode, targets, avoid=loop_nodes)
             wit = [repr(n) for n in path] if path else None
-        rep.check(ok, "C01-R3", w.site(fc), "after a successful fetch every path to the next round / the end passes the loop that yields the filtered batch", key=f"{w.key}|batch-dropped", witness=wit)
+        rep.check(ok, r3, w.site(fc), "after a successful fetch every path to the next round / the end passes the loop that yields the filtered batch", key=f"{w.key}|batch-dropped", witness=wit)
     # provenance chain: filter(grouped) <- group(fetch result)
     fetch_results = set()
     for fc in wm.fetch_calls:
@@ -232,16 +232,16 @@ def check_loop(ctx: Ctx, rep: Report, wm: WalkModel) -> None:
                     frd = reaching_defs(cfg, first.id, d) if isinstance(first, ast.Name) else []
                     if not frd or not all(isinstance(assigned_value(x), ast.Await) and assigned_value(x).value in wm.fetch_calls for x in frd):
                         ok = False
-        rep.check(ok, "C01-R3", w.site(call), "what is filtered and yielded is the regrouping of the batch just fetched", key=f"{w.key}|stale-batch")
+        rep.check(ok, r3, w.site(call), "what is filtered and yielded is the regrouping of the batch just fetched", key=f"{w.key}|stale-batch")
     # continuation loop
     if len(whiles) != 1 or wtest is None:
-        rep.violated("C01-R3", w.site(), "the continuation is a `while` loop over the unfinished roots", f"{len(whiles)} while loops found", key=f"{w.key}|no-continuation-loop")
+        rep.violated(r3, w.site(), "the continuation is a `while` loop over the unfinished roots", f"{len(whiles)} while loops found", key=f"{w.key}|no-continuation-loop")
         return
     wl = whiles[0]
     cond = wl.test
     uname = cond.id if isinstance(cond, ast.Name) else None
     ok = uname is not None and bool(defs.all_values(uname)) and all(v in wm.unfinished_calls for v in defs.all_values(uname))
-    rep.check(ok, "C01-R3", w.site(wl), "the loop condition is the list of unfinished roots computed from a regrouped batch", f"while {norm(cond)}", key=f"{w.key}|loop-condition")
+    rep.check(ok, r3, w.site(wl), "the loop condition is the list of unfinished roots computed from a regrouped batch", f"while {norm(cond)}", key=f"{w.key}|loop-condition")
     if uname is None:
         return
     # renewed on every path to the back edge
@@ -249,7 +249,7 @@ def check_loop(ctx: Ctx, rep: Report, wm: WalkModel) -> None:
     inner_defs = [n for n in inner_defs if n is not None]
     body_entry = [cfg.nodes[nid] for nid, lab in cfg.succ[wtest.id] if lab is True]
     ok = bool(inner_defs) and bool(body_entry) and cfg.must_pass(body_entry[0], [wtest], inner_defs)
-    rep.check(ok, "C01-R3", w.site(wl), "the unfinished list is recomputed from the newest batch on every path back to the loop test", key=f"{w.key}|stale-loop-variable")
+    rep.check(ok, r3, w.site(wl), "the unfinished list is recomputed from the newest batch on every path back to the loop test", key=f"{w.key}|stale-loop-variable")
     # each inner unfinished() call is computed from the newest group result
     for uc in wm.unfinished_calls:
         arg = uc.args[0] if uc.args else None
@@ -258,7 +258,7 @@ def check_loop(ctx: Ctx, rep: Report, wm: WalkModel) -> None:
         if okc:
             rd = reaching_defs(cfg, arg.id, node)
             okc = bool(rd) and all(assigned_value(d) in wm.group_calls for d in rd)
-        rep.check(okc, "C01-R3", w.site(uc), "unfinished roots are computed from the regrouping of the batch just fetched", key=f"{w.key}|unfinished-from-stale")
+        rep.check(okc, r3, w.site(uc), "unfinished roots are computed from the regrouping of the batch just fetched", key=f"{w.key}|unfinished-from-stale")
     # the request inside the loop is built from the unfinished list
     inner_fetch = [fc for fc in wm.fetch_calls if any(a is wl for a in ancestors(fc))]
     for fc in inner_fetch:
@@ -273,7 +273,7 @@ def check_loop(ctx: Ctx, rep: Report, wm: WalkModel) -> None:
                 row_cls = ctx.u.cls("puresnmp.util:WalkRow") if "puresnmp.util:WalkRow" in ctx.u.classes else None
                 fields = dataclass_fields(row_cls) if row_cls else ["value", "unfinished"]
                 ok = norm(exp.elt) == f"{t}[1].{fields[0]}.oid"
-        rep.check(ok, "C01-R6", w.site(fc), "the next request asks, for every unfinished root and in the same order, for the OID last received for it", f"request list = {norm(exp) if exp is not None else None}", key=f"{w.key}|continuation-request")
+        rep.check(ok, r6, w.site(fc), "the next request asks, for every unfinished root and in the same order, for the OID last received for it", f"request list = {norm(exp) if exp is not None else None}", key=f"{w.key}|continuation-request")
 
 
 # ---------------------------------------------------------------- R4
